@@ -10,6 +10,9 @@
 #include <string>
 #include <vector>
 #include <deque>
+#include <algorithm>
+#include <streambuf>
+#include <istream>
 #include <csignal>
 #include <unistd.h>
 
@@ -20,6 +23,24 @@ static inline void watchdog(unsigned secs) { signal(SIGALRM, watchdog_fired); al
 
 
 using namespace ArduinoJson;
+
+// a std::streambuf that hands out its data in blocks of `chunk` bytes (like a socket or a decompressor would): the get
+// area never holds more than one block, so every block boundary goes through underflow()
+struct ChunkedBuf : std::streambuf {
+  std::string data; size_t next = 0, chunk; size_t base = 0;   // base = offset of the current get area in data
+  ChunkedBuf(const std::string& d, size_t c) : data(d), chunk(c ? c : 1) {}
+  int_type underflow() override {
+    if (gptr() && gptr() < egptr()) return traits_type::to_int_type(*gptr());
+    if (next >= data.size()) return traits_type::eof();
+    size_t n = std::min(chunk, data.size() - next);
+    base = next;
+    char* p = &data[next];
+    setg(p, p, p + n);
+    next += n;
+    return traits_type::to_int_type(*gptr());
+  }
+  size_t consumed() const { return gptr() ? base + size_t(gptr() - eback()) : 0; }
+};
 
 static inline std::string unhex(const std::string& h) {
   std::string out;
